@@ -94,3 +94,96 @@ func (p *Acc) BumpLoop(n int) int {
 	}
 	return s + p.A
 }
+
+// ---- for k, v := range m over a map: the enumeration order is a parameter of the generated
+// definition (the harness reads the order Go used off the result) ----
+
+func RangeConcat(m map[string]string, skip string) (out string, n int) {
+	n = len(m)
+	if m == nil {
+		n = -1
+	}
+	for k, v := range m {
+		if k == skip {
+			continue
+		}
+		out = out + k + v
+	}
+	return
+}
+
+// break and return inside a range statement; keys of an integer type
+func RangeStop(m map[uint16]string, stop uint16, ret uint16) (out []byte, done bool) {
+	for k, v := range m {
+		out = append(out, byte(k))
+		if k == stop {
+			break
+		}
+		if k == ret {
+			return out, true
+		}
+		out = append(out, v...)
+	}
+	out = append(out, 255)
+	return out, false
+}
+
+// two range statements (two orders), the second after an if that may return
+func RangeTwo(a map[string]string, b map[string]string) (out string) {
+	for k := range a {
+		out = out + k
+	}
+	if len(a) == 2 {
+		return out + "!"
+	}
+	for _, v := range b {
+		out = out + v
+	}
+	return out
+}
+
+// a callee that enumerates a map: its order is a parameter of the caller too
+func RangeCaller(m map[string]string) (string, int) {
+	s, n := RangeConcat(m, "z")
+	return s + "|", n + 1
+}
+
+// ---- an interface value that may be nil: a nil flag; a method call through nil panics ----
+
+type Sink interface{ Put(b []byte, n int) error }
+
+func SinkWrite(buf []byte, s Sink, v []byte) int {
+	if s == nil || len(v) < 3 {
+		return copy(buf, v)
+	}
+	buf[0] = byte(len(v))
+	_ = s.Put(v, len(buf[1:]))
+	return 1
+}
+
+func SinkTwice(buf []byte, s Sink, v []byte) int {
+	n := SinkWrite(buf, s, v)
+	return n + SinkWrite(buf[n:], s, v)
+}
+
+func SinkNil(buf []byte, v []byte) int { return SinkTwice(buf, nil, v) }
+
+func SinkUse(s Sink, v []byte) int {
+	if s != nil && len(v) > 3 {
+		return 0
+	}
+	_ = s.Put(v, 1)
+	return 1
+}
+
+// ---- p == nil for the pointer receiver ----
+
+func (p *Acc) NilSafe(k int) int {
+	if p == nil {
+		return -1
+	}
+	if nil != p && k > 0 {
+		p.A += k
+	}
+	return p.A
+}
